@@ -257,8 +257,13 @@ async def exec_op(op, k, env, pid, m, mark):
         r = await mpc.output(xs if n is not None else xs[0], **kw)
         mark('end')
         rl = r if n is not None else [r]
-        rec = {'res': [canon(st, a) for a in rl] if isinstance(rl, list) else rl,
-               'want': [canon(st, plain_value(env, st, v)) for v in vals]}
+        if op.get('raw'):     # field elements: compare as residues
+            p = modulus_of(env, st)
+            rec = {'res': [None if a is None else int(a.value) % p for a in rl],
+                   'want': [raw_secret(env, st, v) for v in vals]}
+        else:
+            rec = {'res': [canon(st, a) for a in rl] if isinstance(rl, list) else rl,
+                   'want': [canon(st, plain_value(env, st, v)) for v in vals]}
         if st in NUMERIC:
             p = modulus_of(env, st)
             rec['shares'] = [int(s.value) % p for s in shares]
@@ -736,7 +741,6 @@ def compare_model(ctx, res, meta):
                     gotv = got
                     if op.get('raw'):
                         wantv = [a % p for a in mv[1]]
-                        gotv = [None if g is None else (int(g * 2 ** 8) if st == 'secfxp' else int(g)) % p for g in got]
                     if gotv != wantv:
                         diffs.append((pid, 'value', gotv, wantv))
         if diffs:
